@@ -194,6 +194,25 @@ Theorem C05_lime_explain_one_mapping :
 Proof. exact C05.LimeLink.lime_explain_one_mapping. Qed.
 Print Assumptions C05_lime_explain_one_mapping.
 
+(* kernelshap_zero_additive: KernelShap on an additive score that puts no weight outside R gives exactly 0 (exact
+   arithmetic; ~1e-16 in the implementation) to every position whose segment contains no position of R — under the
+   hypotheses of C07_kshap_exact (the drawn design has full column rank, the estimator returns a least-squares
+   minimiser).  For non-additive scores the finite-sample coefficient of an ignored segment is not 0: not claimed. *)
+Theorem C05_kernelshap_zero_outside :
+  forall (score : list Qc -> list Qc -> Qc) b wv fit bs nb k ref x t mapping Z (R : nat -> bool) q,
+    C07.Spec.additive (C07.Model.kind_size k) score b wv -> C07.Spec.bs_ok bs nb -> C07.Spec.lime_ok k ref x mapping ->
+    (forall z, In z Z -> length z = C07.Model.num_features mapping) ->
+    C07.Spec.design_injective (C07.Model.num_features mapping) Z ->
+    (forall y, exists b0, C07.Spec.ls_minimiser (C07.Model.num_features mapping) Z y
+                            (fit Z y (map (fun _ => 0%Qc) Z)) b0) ->
+    (forall p, p < C07.Model.kind_size k -> R (p / C07.Model.kind_chan k) = false -> nthq (wv t) p = 0%Qc) ->
+    q < length mapping ->
+    (forall p, p < length mapping -> nth p mapping 0 = nth q mapping 0 -> R p = false) ->
+    nthq (C07.Model.tr_expl (C07.Model.lime_one score (fun _ _ _ => 0%Qc) fit (eff_bs bs nb) k ref x t mapping Z)) q
+    = 0%Qc.
+Proof. exact C05.LimeLink.kshap_zero_outside. Qed.
+Print Assumptions C05_kernelshap_zero_outside.
+
 (* ------------------------------------------------------------------ occlusion_max_in_region
    Occlusion on images / time series: if the score depends only on, and increases with, the features of a rectangle R
    (rows r0..r1-1, columns c0..c1-1) and the occlusion value is not above the input on R, then the largest value of
@@ -216,7 +235,7 @@ Proof. exact occlusion_max_in_region. Qed.
 Print Assumptions C05_occlusion_max_in_region.
 
 (* ------------------------------------------------------------------ not proved
-   kernelshap_zero_additive is C07_kshap_exact (shared with C07).  The "largest attribution in the region" clause
+   The "largest attribution in the region" clause
    for RISE / HSIC / Lime / KernelShap / Sobol-after-resize and for the Sobol estimators other than Jansen is
    statistical (DESIGN.md section 6): support evidence from the correspondence only. *)
 
